@@ -45,13 +45,14 @@ def run_ops(case):
         sid = getattr(r, "recurring_event_id", None)
         ser = 0
         if sid is not None:
-            ser = next((k for k, v in series_ids.items() if v == sid), 98)
+            ser = next((k for k, v in series_ids.items() if v == sid), 99 if sid == "no-such-series" else 98)
         return [r.start, r.end, getattr(r, "tag", 0) * SER + ser]
 
     try:
         for op in case["ops"]:
             if op[0] == "add":
-                res = m.add(mk(op[1], op[2], op[3], 0))
+                # a stored (static) event may itself carry a recurring_event_id: op[4], optional
+                res = m.add(mk(op[1], op[2], op[3], op[4] if len(op) > 4 else 0))
                 out.append([[r.success for r in res], []])
             elif op[0] == "addpat":
                 _, k, phase, dur, tag, anchored = op
@@ -81,7 +82,7 @@ def coq_ev(s, e, tag, series):
 
 def coq_op(op):
     if op[0] == "add":
-        return f"(MAdd {coq_ev(op[1], op[2], op[3], 0)})"
+        return f"(MAdd {coq_ev(op[1], op[2], op[3], op[4] if len(op) > 4 else 0)})"
     if op[0] == "addpat":
         _, k, phase, dur, tag, anchored = op
         return f"(MAddPat {cz(k * DAY)} {cz(phase)} {cz(dur)} {tag}%N)"
@@ -118,8 +119,16 @@ class MemFamily(Family):
                 if r < 0.25:
                     s, e = rng.choice(uni)
                     tag = rng.choice([1, 1, 2, 3])
-                    ops.append(["add", s, e, tag])
-                    added.append((s, e, tag))
+                    # one add in five stores an event that carries a recurring_event_id (of a stored
+                    # series, or of none): a copy of an occurrence, an event of another calendar
+                    ser = rng.choice(list(range(1, npat + 1)) + [99]) if rng.random() < 0.2 else 0
+                    if ser and ser != 99 and rng.random() < 0.5:
+                        # exactly an occurrence of that series
+                        _, k, phase, dur, ptag, _ = [o for o in ops if o[0] == "addpat"][ser - 1]
+                        s = (phase if phase > DAY else BASE + phase) + rng.choice([0, 1, 2]) * k * DAY
+                        e, tag = s + dur, ptag
+                    ops.append(["add", s, e, tag, ser])
+                    added.append((s, e, tag, ser))
                 elif r < 0.4 and npat < 3:
                     k = rng.choice([1, 1, 2, 3])
                     anchored = rng.random() < 0.5
@@ -132,10 +141,10 @@ class MemFamily(Family):
                     kind = rng.choice(["remove", "remove", "rseries"])
                     q = rng.random()
                     if q < 0.45 and added:
-                        s, e, tag = rng.choice(added)
+                        s, e, tag, ser = rng.choice(added)
                         if rng.random() < 0.15:
                             tag = 7                       # same span, different metadata: not stored
-                        ops.append([kind, s, e, tag, 0])
+                        ops.append([kind, s, e, tag, ser])
                     elif q < 0.9 and npat:
                         ser = rng.choice(list(range(1, npat + 1)) + [99] * 1)
                         pat = [o for o in ops if o[0] == "addpat"][min(ser, npat) - 1]
@@ -166,7 +175,8 @@ class MemFamily(Family):
     def shrink_candidates(self, case):
         ops = case["ops"]
         for i in range(len(ops)):
-            if ops[i][0] == "addpat" and any(o[0] in ("remove", "rseries") and o[4] for o in ops[i + 1:]):
+            if ops[i][0] == "addpat" and any(o[0] in ("remove", "rseries", "add") and len(o) > 4 and o[4]
+                                             for o in ops[i + 1:]):
                 continue      # dropping a pattern would renumber the series referred to later
             yield dict(ops=ops[:i] + ops[i + 1:])
 
@@ -179,6 +189,8 @@ class MemFamily(Family):
     def distribution(self, case, dist):
         for o in case["ops"]:
             dist["op_" + o[0]] += 1
+            if o[0] == "add" and len(o) > 4 and o[4]:
+                dist["add_static_with_recurring_event_id"] += 1
         if any(o[0] == "slice" and o[3] for o in case["ops"]):
             dist["has_reverse_slice"] += 1
 
